@@ -457,6 +457,7 @@ Reify(h, v, d) ==
                        kv |-> [i \in 1..Len(t) |-> <<t[i].key, Reify(h, t[i].val, d + 1)>>]]
     [] v.k = "error" -> [k |-> "error", v |-> Reify(h, v.v, d + 1)]
     [] v.k = "func" -> [k |-> "func"]
+    [] v.k = "hostfn" -> [k |-> "userfunc", name |-> v.name]
     [] v.k = "bool" -> [k |-> "bool", b |-> v.b]
     [] OTHER -> v
 =============================================================================
